@@ -49,7 +49,7 @@ def proj_state(state):
 OPD = {"op": "-", "d": "d", "k": "", "v": "", "ver": -1, "n": 0, "at_secondary": False}
 
 
-def normalize(raw_files, out_path, primary="n1", only=None):
+def normalize(raw_files, out_path, primary="n1", only=None, conf_by_run=None):
     import common
     n = runs = 0
     panicked = set()
@@ -73,6 +73,8 @@ def normalize(raw_files, out_path, primary="n1", only=None):
                     panicked = set()
                     runs += 1
                     o = {"ev": "reset", "run": raw["run"], "nodes": raw["nodes"]}
+                    if conf_by_run is not None:
+                        o["conf"] = bool(conf_by_run.get(raw["run"], True))
                 elif ev == "tool_error":
                     raise common.ToolError("cluster simulator: run %s: %s" % (raw["run"], raw.get("msg", "")))
                 elif ev == "formed":
